@@ -9,19 +9,33 @@ Static rules (DESIGN.md §C08):
               zeroed under that mask after its last modification on every path to the return,
               and the returned value is zeroed under the mask or computed from the clamped density
  cutoff-pair  MappedDFTKernel{,2}.__call__ zero value *and* derivative below rhocut in every spin
-              mode (shared with C04)
+              mode, and the zeroing precedes every consumer of the zeroed arrays (an assignment that
+              hands the array on to the result, or a call that also receives caller-visible storage
+              it can update in place, e.g. apply_libxc_baseline_(f, df, rho_tuple, vrho_tuple))
+              (shared with C04)
  guarded-den  sign-domain abstract interpretation ({>0, >=0, unknown} x depends-on-density x
               clamp-on-chain) of a frozen list of low-level numeric routines: every division / power
               with a possibly negative exponent whose denominator depends on the density has a
               denominator proven > 0.  Undecided sites are notes; a violation is reported only for a
               bare density-dependent name/product with no clamp anywhere on its definition chain
+ singular-override  non-finite taint with mask cleansing (same interpreter): a division / negative
+              power / log whose operand is only known >= 0 taints its result on the zero set of the
+              operand's root (e.g. X0T[1]); arithmetic propagates the taint; `x[m] = <finite>` or
+              np.where(m, <finite>, x) with m = (root < positive constant) removes it.  Every returned
+              value and every store through a parameter (e[:] += .., dedx[k] += ..) in the frozen
+              routine list and the native baselines must not carry a root that some override in the
+              same function repairs: the override must come after the last operation that can
+              re-introduce the singular factor.  Roots never repaired in the function are notes.
+ index-clip   cider_ind_clip (clang AST, value-identity bound analysis): the value finally stored in
+              the index array is, on every path, bounded below by 0 and above by size / size - eps;
+              a guard evaluated on a stale copy of the index does not count
 """
 import ast
 import os
 import sys
 
 sys.path.insert(0, os.path.dirname(os.path.dirname(os.path.abspath(__file__))))
-from sa import core, pyfacts as pf, cfg as cfgm, evalrules as er, signdom as sd  # noqa: E402
+from sa import core, pyfacts as pf, cfg as cfgm, evalrules as er, signdom as sd, cfacts, cclamp  # noqa: E402
 from sa.selftest import Mutant  # noqa: E402
 
 PROP = "C08"
@@ -31,6 +45,10 @@ TD = "ciderpress/dft/transform_data.py"
 NI = "ciderpress/pyscf/numint.py"
 XE = "ciderpress/dft/xc_evaluator.py"
 XE2 = "ciderpress/dft/xc_evaluator2.py"
+BL = "ciderpress/dft/baselines.py"
+CC_C = "mod_cider/cider_coefs.c"
+CC_REL = "ciderpress/lib/mod_cider/cider_coefs.c"
+PL = "ciderpress/dft/plans.py"
 
 
 # ----------------------------------------------------------------------------
@@ -394,14 +412,19 @@ class Den:
 
     def assume(self, fn, p):
         cls = pf.enclosing_class(fn)
+        root = frozenset((p,))
         if p in DENSITY_PARAMS:
-            return sd.AV(sd.Z, True, False)
+            return sd.AV(sd.Z, True, False, root)
         if p in CUTOFF_NAMES:
             return sd.AV(sd.P, False, False)
         if p == "X0T":
+            # raw features: rows are non-negative in the native baselines (density, s^2, damping
+            # feature); for the normaliser list only row 0 is used as a denominator, always clamped
+            if self.mod(fn).rel == BL:
+                return sd.AV(sd.Z, True, False, root)
             return sd.AV(sd.U, True, False)
         if p == "x" and cls is not None and cls.name.startswith("SL"):
-            return sd.AV(sd.Z, True, False)
+            return sd.AV(sd.Z, True, False, root)
         return None
 
     def attr_assume(self, text):
@@ -499,11 +522,60 @@ def den_entries(prog):
     return out
 
 
+def baseline_entries(prog):
+    """native baselines: every module-level function of baselines.py that takes the raw feature
+    array X0T (the `_*_x_helper` kernels, the RHO baseline, the sigma reconstruction for GGA_C)"""
+    bl = prog.module(BL)
+    out = []
+    for name, fn in bl.functions.items():
+        if "X0T" in er.param_names(fn):
+            out.append((BL, name, fn))
+    if sum(1 for _, n, _ in out if "_x_" in n and n.endswith("_helper") and n != "_sl_x_helper") < 4:
+        raise core.AnalysisError("fewer than the 4 native exchange helpers found in %s" % BL)
+    return out
+
+
+def rule_singular_override(chk, d, n_entries):
+    """Outputs (returned values, stores through parameters) must not carry a singular factor
+    that a masked override in the same function was written to repair."""
+    I = d.interp
+    n = 0
+    for sk in I.sinks.values():
+        fn, node, taint = sk["func"], sk["node"], sk["taint"]
+        m = d.mod(fn)
+        qual = pf.qualname(fn)
+        text = pf.src(node).splitlines()[0][:110]
+        inst = "%s: %s" % (qual, text)
+        n += 1
+        if not taint:
+            chk.ok("singular-override", inst)
+            continue
+        repaired = I.cleansed.get(id(fn), {})
+        hit = sorted(r for r in taint if r in repaired)
+        if hit:
+            ov = repaired[hit[0]]
+            chk.violation("singular-override", m.rel, qual, text, node.lineno,
+                          "%s may be non-finite where `%s` vanishes: a division / negative power / log by a "
+                          "factor that is zero there reaches this output, although the function repairs exactly "
+                          "that singular set with the masked override `%s` (line %d) -- the override is applied "
+                          "before the last operation that re-introduces the singular factor"
+                          % (sk["what"], hit[0], pf.src(ov)[:60], getattr(ov, "lineno", 0)), instance=inst)
+        else:
+            known = sorted(r for r in taint if r != sd.UNKNOWN_ROOT)
+            chk.ok("singular-override", inst + " undecided", nontrivial=False)
+            if known:
+                chk.note("singular-override", "%s:%s" % (m.rel, qual),
+                         "`%s`: possibly singular where %s vanish(es) and no masked override repairs it in this "
+                         "function (may be guarded by the caller); not reported" % (text, known))
+    chk.count("outputs checked for re-introduced singular factors", n)
+
+
 def rule_guarded_den(chk, prog):
     d = Den(chk, prog)
-    entries = den_entries(prog)
+    entries = den_entries(prog) + baseline_entries(prog)
     for rel, qual, fn in entries:
         d.interp.call_function(fn, {})
+    chk.guard(lambda c: rule_singular_override(c, d, len(entries)))
     chk.count("numeric routines analysed (entries)", len(entries))
     chk.count("abstract function evaluations", len(d.interp.memo))
     nsite = 0
@@ -547,16 +619,52 @@ def rule_guarded_den(chk, prog):
 
 
 # ----------------------------------------------------------------------------
+# rule 4: index clipping for the spline plans (C, clang AST)
+# ----------------------------------------------------------------------------
+def rule_index_clip(chk, tree):
+    # the Python side hands (di, derivi, size - 1, n) to cider_ind_clip and the spline evaluators then use
+    # (int) di as a row index without further checks
+    src = tree.read(PL)
+    if "cider_ind_clip" not in src:
+        raise core.AnalysisError("plans.py no longer calls cider_ind_clip: the anchor of this rule moved")
+    tu = cfacts.TU(tree, CC_C)
+    params = tu.params("cider_ind_clip")
+    ptrs = [p for p in params if "*" in p.get("type", {}).get("qualType", "")]
+    ints = [p for p in params if p.get("type", {}).get("qualType", "") == "int"]
+    if len(ptrs) != 2 or len(ints) != 2:
+        raise core.AnalysisError("cider_ind_clip signature changed (expected two arrays, size-1, ngrids)")
+    arr, size = ptrs[0]["name"], ints[0]["name"]
+    res = cclamp.ClampLoop(tu, "cider_ind_clip", arr, size).run()
+    if not res:
+        raise core.AnalysisError("cider_ind_clip: no final store into %s found" % arr)
+    for idx, v, text, line in res:
+        inst = "cider_ind_clip: %s[%s] finally stored within [0, %s)" % (arr, idx, size)
+        if v.lo and v.hi:
+            chk.ok("index-clip", inst, detail=text)
+        else:
+            miss = [w for w, okb in (("the lower bound 0", v.lo), ("the upper bound %s" % size, v.hi)) if not okb]
+            chk.violation("index-clip", CC_REL, "cider_ind_clip", text, line,
+                          "the value finally stored in %s[%s] is not bounded by %s on every path: a guard that was "
+                          "evaluated on another (stale or earlier) copy of the index does not bound the value "
+                          "stored here; the spline evaluators use (int) %s[%s] as a table row without checks"
+                          % (arr, idx, " nor by ".join(miss), arr, idx), instance=inst)
+
+
+# ----------------------------------------------------------------------------
 def analyse(chk):
     tree = chk.tree
-    prog = pf.Program(tree, [ST, FN, TD, NI, XE, XE2])
+    prog = pf.Program(tree, [ST, FN, TD, NI, XE, XE2, BL])
     chk.rule("clamp-zero", "mask from the unclamped density; every returned derivative zeroed under it; value "
                            "zeroed or computed from the clamped density")
     chk.rule("cutoff-pair", "every spin mode zeroes value and derivative under masks of the same density/cutoff")
     chk.rule("guarded-den", "density-dependent denominators are proven > 0 in the sign domain")
+    chk.rule("singular-override", "no output carries a singular factor after the masked override that repairs it")
     chk.guard(rule_clamp_zero, prog)
     chk.guard(rule_cutoff_pair, prog)
     chk.guard(rule_guarded_den, prog)
+    chk.rule("index-clip", "cider_ind_clip stores an index within [0, size) on every path (clang AST)")
+    chk.guard(rule_index_clip, tree)
+    chk.floor("index-clip", 1, "one index array element per iteration")
     chk.floor("clamp-zero", 20, "7 routines: 7 masks + 13 derivative arrays + 4 values (22)")
     chk.floor("cutoff-pair", 6, "2 classes x 3 modes")
     chk.floor("guarded-den", 60, "density-dependent division / negative-power sites in the frozen routine list")
@@ -566,13 +674,37 @@ def analyse(chk):
         "cutoffs are > 0: parameters/attributes named rhocut / cutoff, and the module constant ALPHA_TOL (folded)",
         "SL*Map.gamma > 0 (documented scale parameter)",
         "array reductions (.sum/.mean) act on non-empty axes",
+        "rows of the raw feature array X0T read by the native baselines are >= 0 (density, s^2, damping feature)",
+        "cider_ind_clip: the spline table has at least two rows (size - 1 >= 1, so 0 <= size - 1 - 1e-10)",
     ]
     chk.not_decided += [
         "end-to-end NaN-freedom (masking several calls away from a division, libxc, C code)",
         "overflow for huge gradients / huge tau",
+        "singularities that no masked override in the same function repairs (listed as notes: get_sigma/get_dsigma "
+        "divide by rho_up + rho_dn)",
+        "that the derivative array is zeroed exactly when cider_ind_clip clamps the index",
         "denominators whose positivity depends on fitted constants (InhomogeneityNormalizer/GeneralNormalizer "
         "`1 + const2 * inh`) -- listed as notes",
     ]
+
+
+def _move_baseline_call_up(text):
+    call = "        self.apply_libxc_baseline_(f, df, rho_tuple, vrho_tuple)\n"
+    guard = "        if rhocut > 0:\n            cond = rho_tuple[0] < rhocut\n"
+    if text.count(call) != 1 or text.count(guard) != 1:
+        return None
+    return text.replace(call, "").replace(guard, call + guard)
+
+
+def _move_zeroing_to_end(text):
+    a = text.find("        if rhocut > 0:\n            cond = rho_tuple[0] < rhocut\n")
+    b = text.find("        self.apply_libxc_baseline_(f, df, rho_tuple, vrho_tuple)\n")
+    c = "        dfdX0T = self.apply_descriptor_grad(X0T, df, force_polarize=True)\n"
+    if a < 0 or b < a or text.count(c) != 1:
+        return None
+    block = text[a:b]
+    rest = text[:a] + text[b:]
+    return rest.replace(c, c + block)
 
 
 def mutants(tree):
@@ -594,8 +726,8 @@ def mutants(tree):
                expect="clamp-zero"),
         Mutant("get_s2: value no longer zeroed", ST, "    s[cond] = 0.0\n    return s * s\n", "    return s * s\n",
                expect="clamp-zero"),
-        Mutant("exponent: density clamp removed", ST, "    rho = rho.copy()\n    rho[cond] = rhocut\n    sigma[cond] = 0\n    tau[cond] = 0\n",
-               "    rho = rho.copy()\n    sigma[cond] = 0\n    tau[cond] = 0\n", expect=None),
+        Mutant("exponent: density clamp removed", ST, "    rho[cond] = rhocut\n    sigma[cond] = 0\n    tau[cond] = 0\n",
+               "    sigma[cond] = 0\n    tau[cond] = 0\n", expect=None),
         Mutant("dalpha: np.maximum(ALPHA_TOL, rho) removed", ST,
                "def dalpha(rho, sigma, tau):\n    cond = rho < ALPHA_TOL\n    rho = np.maximum(ALPHA_TOL, rho)\n",
                "def dalpha(rho, sigma, tau):\n    cond = rho < ALPHA_TOL\n", expect="guarded-den"),
@@ -615,6 +747,25 @@ def mutants(tree):
                "        rho = np.maximum(x[self.i], 1e-10)\n        tau0 = self.const * rho ** (5.0 / 3)\n        tauw = x[self.j] / (8 * rho)\n        tau = x[self.k]\n        # y[:]",
                "        rho = x[self.i]\n        tau0 = self.const * rho ** (5.0 / 3)\n        tauw = x[self.j] / (8 * rho)\n        tau = x[self.k]\n        # y[:]",
                expect="guarded-den"),
+        Mutant("chachiyo: small-s2 override moved before the chain-rule factor", BL,
+               "    dchfx *= dx\n    chfx[s2 < 1e-8] = 1 + 8 * s2[s2 < 1e-8] / 27\n    dchfx[s2 < 1e-8] = 8.0 / 27\n",
+               "    chfx[s2 < 1e-8] = 1 + 8 * s2[s2 < 1e-8] / 27\n    dchfx[s2 < 1e-8] = 8.0 / 27\n    dchfx *= dx\n",
+               expect="singular-override"),
+        Mutant("chachiyo: value divided by log(1+x) again after its override", BL,
+               "    e[:] += LDA_FACTOR * rho ** (4.0 / 3) * chfx\n    dedx[0] += 4.0 / 3 * LDA_FACTOR * rho ** (1.0 / 3) * chfx\n    dedx[1] += LDA_FACTOR * rho ** (4.0 / 3) * dchfx",
+               "    e[:] += LDA_FACTOR * rho ** (4.0 / 3) * chfx\n    dedx[0] += 4.0 / 3 * LDA_FACTOR * rho ** (1.0 / 3) * chfx * x / np.log(1 + x)\n    dedx[1] += LDA_FACTOR * rho ** (4.0 / 3) * dchfx",
+               expect="singular-override"),
+        Mutant("v2: cutoff zeroing moved after the in-place baseline call", XE2, fn=_move_baseline_call_up,
+               expect="cutoff-pair"),
+        Mutant("v2: cutoff zeroing moved after the descriptor gradient", XE2, fn=_move_zeroing_to_end,
+               expect="cutoff-pair"),
+        Mutant("cider_ind_clip: upper test on a stale copy of the index", CC_REL,
+               "            di = di_g[g];\n            cond = di < sizem1;", "            cond = di < sizem1;",
+               expect="index-clip"),
+        Mutant("cider_ind_clip: upper clamp compares with ngrids", CC_REL, "cond = di < sizem1;", "cond = di < ngrids;",
+               expect="index-clip"),
+        Mutant("cider_ind_clip: lower clamp dropped", CC_REL, "di_g[g] = (cond ? di : 0);", "di_g[g] = di;",
+               expect="index-clip"),
         Mutant("zero only res under rhocut", XE, "                res[..., cond] = 0.0\n                dres[..., cond] = 0.0\n",
                "                res[..., cond] = 0.0\n", expect="cutoff-pair"),
         Mutant("zero only f under rhocut (v2 SEP)", XE2, "                f[cond] = 0.0\n                df[cond] = 0.0\n", "                f[cond] = 0.0\n",
